@@ -65,7 +65,8 @@ theorem Core.pr {s s' : State} {r : Id} {up up' popped : List Id} {ph : Phase} (
   have hdata : ∀ x, s'.dom.dataOf x = s.dom.dataOf x := fun x => by unfold Dom.dataOf; rw [p.nodes]
   have hsplit : s.openElems = s'.openElems ++ popped := p.stack
   refine ⟨h.late.pr p, hst, by rw [hk]; exact h.rdoc, ?_, ?_, ?_, ?_, ?_, ?_, (RS.of_nodes p.nodes).uniq h.rtu,
-    by rw [hk]; exact h.rnd, ?_, ?_, ?_, ?_⟩
+    by rw [hk]; exact h.rnd, ?_, ?_, ?_, ?_,
+    (h.adj.of_nodes p.nodes).sub h.nodup (by rw [hsplit]; exact List.sublist_append_left _ _)⟩
   · have := h.nodup; rw [hsplit] at this; exact (List.nodup_append.mp this).1
   · exact (h.tg.prefix hsplit).congr (fun x _ => hnm x)
   · intro x t hx
